@@ -45,6 +45,14 @@ claims = {
        "externals that have a declared contract (time, rand, os, ... have none). This is an analysis of sufficient conditions, not a proof of equality of two runs.",
   note=TB + " Map ranges that call into jsight-schema-core (AddRule/AddType/OpenAPI conversion) are assumed commutative (listed per run). Determinism inside the dependency is assumed.",
   ref="§6 C06", category="other"),
+ "C08": dict(
+  text="Proof of the per-state relational lemmas the statement rests on, by two-copy verification conditions of the real step functions: for each of the 170 scanner "
+       "states, running the state from the same scanner state on '\\n' and on '\\r' (and on ' ' and on TAB), in two documents that differ in exactly that byte, gives the same "
+       "error-or-not, the same error index, the same next state, step stack, emitted events, cursor and protocol ghost state; nested dynamic step calls are related by the "
+       "induction hypothesis, contracted callees by 'a function of arguments and heap'. Hence CR-only and LF-only documents, and tab- and space-indented ones, scan identically "
+       "byte for byte. Not decided: CRLF vs LF (false at the scanner level, see DESIGN §6 C08), comments/blank lines as insertions, quoting, // vs /* */, explicit vs implicit "
+       "context (the latter is C11's contract), and the induction over the whole document.",
+  note=TB + " The two runs share the allocation counter; externals marked deterministic are related across the runs.", ref="§6 C08"),
  "C09": dict(
   text="Proof of the mechanisms the statement rests on, per function: processInclude changes only the active scanner and the include stack (frame: the pending directive and the "
        "context cursor survive the switch); the included file starts in the root state with empty stacks; isScanningFinished resumes exactly the pushed scanner; the end of an "
@@ -110,7 +118,7 @@ not_applicable = {
  "C18": "schedules and data races: the translation is sequential (sync.* erased), no permission logic",
 }
 # properties not yet claimed in this revision are listed as not_applicable with the reason "not yet under contract"
-pending = ["C04","C08","C16"]
+pending = ["C04","C16"]
 
 checks = []
 for pid in sorted(claims):
